@@ -71,8 +71,9 @@ CLAIMED = {
             "DESIGN.md §5 C15"),
     "C16": ("Seeded search over generation histories (AVPs, typed messages, bulk re-origin with identity switches, bytes) interleaved "
             "with steps of the simulated wall clock (frozen, ms, 1 s, days, backwards), counter fast-forward to 2^32, shared update dicts; every generated Session-Id is compared with all earlier "
-            "ones and checked for form and identity prefix.",
-            TRUST + "Generation is single-threaded (the quantifier is over histories and clock rates); the wall clock may also be stepped back.",
+            "ones and checked for form and identity prefix; one run in five generates from 2..4 threads at once (line / bytecode pre-emption, "
+            "anchored stalls inside the generator).",
+            TRUST + "Four runs in five are single-threaded histories (the quantifier is over histories and clock rates), one in five is concurrent; the wall clock may also be stepped back.",
             "DESIGN.md §5 C16"),
 }
 
